@@ -42,10 +42,13 @@ class ScriptedRng:
         self.pos = 0
         self.ncalls = 0
         self.deviated = False
+        self.log = []
+        self.ranges = []
         self.fallback = random.Random(fallback_seed)
 
     def _next(self, kind):
         self.ncalls += 1
+        self.log.append(kind)
         if self.pos < len(self.script) and self.script[self.pos].get('kind') == kind:
             v = self.script[self.pos]['values']
             self.pos += 1
@@ -64,6 +67,7 @@ class ScriptedRng:
                 a = len(data)
         if size is None:
             v = self._next('choice')
+            self.ranges.append(('choice', a))
             if a <= 0:
                 raise ValueError("a must be greater than 0 unless no samples are taken")
             i = v[0] if v is not None and 0 <= v[0] < a else self.fallback.randrange(a)
@@ -93,6 +97,7 @@ class ScriptedRng:
             low, high = 0, low
         hi = high + (1 if endpoint else 0)
         v = self._next('integers')
+        self.ranges.append(('integers', low, hi))
         if low >= hi:
             raise ValueError('low >= high')
         if v is not None and low <= v[0] < hi:
@@ -216,6 +221,16 @@ def decode(j):
         return o
     if 'token' in j:
         return StubToken(j['token'], 0)
+    if 'ObjPred' in j:
+        import pyvc_rt
+        allowed = [decode(x) for x in j['ObjPred']]
+        def pred(o, allowed=allowed):
+            from gym_gridverse.grid_object import Box
+            if isinstance(o, Box):
+                return pred(o.content) and any(isinstance(a, Box) for a in allowed) or (
+                    j.get('boxes', True) and pred(o.content))
+            return any(pyvc_rt.same(o, a) for a in allowed)
+        return pred
     if 'VisFn' in j:
         return ScriptedVisFn(j['VisFn'], seed=len(json.dumps(j)))
     if 'const' in j:
@@ -254,7 +269,14 @@ def rand_obj_of(r, c, depth=0):
 def rand_grid(r, h=None, w=None):
     h = h or r.randint(1, 4)
     w = w or r.randint(1, 4)
-    return {'Grid': [[rand_obj(r) for _ in range(w)] for _ in range(h)]}, h, w
+    mode = r.random()
+    if mode < 0.35:
+        return {'Grid': [[rand_obj(r) for _ in range(w)] for _ in range(h)]}, h, w
+    # small palette: repeated kinds/colours (paired telepods, several obstacles, keys matching doors...)
+    palette = [rand_obj(r) for _ in range(r.randint(1, 3))]
+    if mode < 0.7:
+        palette += [{'cls': 'Floor'}] * r.randint(1, 4)
+    return {'Grid': [[dict(r.choice(palette)) for _ in range(w)] for _ in range(h)]}, h, w
 
 
 def rand_input(sort, r, ctx=None):
@@ -320,8 +342,14 @@ def rand_input(sort, r, ctx=None):
     if sort in ('State', 'Observation'):
         g, h, w = rand_grid(r)
         # agent mostly inside the grid, often on an edge
-        if r.random() < 0.9:
+        u = r.random()
+        if u < 0.45:
             pos = {'Position': [r.randint(0, h - 1), r.randint(0, w - 1)]}
+        elif u < 0.9:
+            # prefer standing on a non-floor cell (telepod, exit, obstacle, open door ...)
+            cells = [(y, x) for y in range(h) for x in range(w) if g['Grid'][y][x]['cls'] != 'Floor']
+            y, x = r.choice(cells) if cells else (r.randint(0, h - 1), r.randint(0, w - 1))
+            pos = {'Position': [y, x]}
         else:
             pos = rand_input('Position', r)
         item = rand_obj(r) if r.random() < 0.6 else {'cls': 'NoneGridObject'}
@@ -331,6 +359,22 @@ def rand_input(sort, r, ctx=None):
         return {'Rng': []}
     if sort == 'VisFn':
         return {'VisFn': [], 'salt': r.randint(0, 10 ** 6)}
+    if sort == 'ObjPred':
+        # a type/colour space: flat objects of some classes and colours (+ open variant of every door), boxes of them
+        classes = r.sample(['NoneGridObject', 'Hidden', 'Floor', 'Wall', 'Exit', 'Door', 'Key', 'MovingObstacle',
+                            'Telepod', 'Beacon'], r.randint(3, 10))
+        if r.random() < 0.8 and 'Floor' not in classes:
+            classes.append('Floor')
+        colors = r.sample(COLORS, r.randint(1, 5))
+        out = []
+        for c in classes:
+            if c == 'Door':
+                out += [{'cls': c, 'state': s_, 'color': col} for s_ in ('OPEN', 'CLOSED', 'LOCKED') for col in colors]
+            elif c in ('Exit', 'Key', 'Telepod', 'Beacon'):
+                out += [{'cls': c, 'color': col} for col in colors]
+            else:
+                out.append({'cls': c})
+        return {'ObjPred': out}
     raise ValueError(f'no generator for sort {sort}')
 
 
@@ -468,6 +512,47 @@ def run_contract(spec, inputs_json, only=None):
             setattr(owner, attr, orig)
     st.phase = 'post'
     st.old_i = 0
+
+    def possible_hook(rng, thunk):
+        import itertools
+        doms = []
+        for rg in rng.ranges:
+            if rg[0] == 'choice':
+                doms.append([{'kind': 'choice', 'values': [i]} for i in range(max(rg[1], 0))])
+            elif rg[0] == 'integers':
+                doms.append([{'kind': 'integers', 'values': [i]} for i in range(rg[1], rg[2])])
+        if len(rng.log) != len(doms):
+            raise RuntimeError('possible(): unsupported draw kinds ' + str(rng.log))
+        n = 1
+        for d in doms:
+            n *= max(len(d), 1)
+        if n > 4096:
+            raise RuntimeError('possible(): too many outcomes')
+        rng_name = next(k for k, v in vals.items() if v is rng)
+        for script in itertools.product(*doms):
+            j2 = dict(inputs_json)
+            j2[rng_name] = {'Rng': list(script)}
+            vals2 = {k: decode(v) for k, v in j2.items() if not k.startswith('stub:')}
+            args2 = [vals2[p] for p in spec.args if p not in spec.kwonly and p not in ghost]
+            kwargs2 = {p: vals2[p] for p in spec.kwonly}
+            try:
+                target(*args2, **kwargs2)
+            except Exception:
+                continue
+            saved = []
+            for k, v in vals.items():
+                if hasattr(v, '__dict__') and not isinstance(v, (ScriptedRng,)):
+                    saved.append((v, dict(v.__dict__)))
+                    v.__dict__.update(vals2[k].__dict__)
+            try:
+                if thunk():
+                    return True
+            finally:
+                for v, d in saved:
+                    v.__dict__.clear()
+                    v.__dict__.update(d)
+        return False
+    st.possible_hook = possible_hook
     try:
         spec.fn(**byname)
     except Exception as e:
